@@ -149,6 +149,14 @@ def r1_inventory(ctx, chk, fx):
         for (rx, k, maxn, disc, why) in AUDIT:
             if k == kind and re.match(rx, fn):
                 row = (rx, k, maxn, disc, why)
+        if row is None and kind in ("call:index::index", "assert:Overflow", "call:BytesMut::split_to") and fn.startswith("netconf::transport::") or \
+                (row is None and kind in ("call:index::index", "assert:Overflow", "call:BytesMut::split_to") and fn.startswith("<netconf::transport::")):
+            # a framing helper (search the buffer for the marker, split the message off): the same sites as in the receivers, covered by the same
+            # C06 invariants — provided the body really is such a helper (it searches with the Finder and splits), whatever its name
+            hb = fx.mir[fn]
+            if hb.calls_to("memmem::Finder::<'n>::find") and hb.calls_to("BytesMut::split_to"):
+                row = (re.escape(fn) + "$", kind, {"assert:Overflow": 3, "call:index::index": 1, "call:BytesMut::split_to": 1}[kind], "c06",
+                       "framing helper: search offset <= buf.len() (C06/R1), split position ends at a marker found in the buffer (C06/R2)")
         fkey = T.strip_generics(fn)
         if row is None:
             for (n, sp, call) in ss:
